@@ -1367,6 +1367,12 @@ def _inline_local_closures(mods: dict[str, Module], log: list[str]) -> None:
                                 expr = ast.GeneratorExp(elt=lp_.body[0].value.value, generators=[ast.comprehension(target=lp_.target, iter=lp_.iter, ifs=[], is_async=0)])
                                 defaults = {}
                                 body = []
+                            if len(body) == 1 and isinstance(body[0], ast.If):
+                                # an if/else tree of returns (the loader reads `return a if c else b` that way) is one conditional expression
+                                from .util import returned_value
+                                rv_ = returned_value(body)
+                                if rv_ is not None:
+                                    body = [ast.copy_location(ast.Return(value=rv_), body[0])]
                             if len(body) == 1 and isinstance(body[0], ast.Return) and body[0].value is not None:
                                 name, params, expr = st.name, [a.arg for a in [*st.args.posonlyargs, *st.args.args]], body[0].value
                                 defaults = dict(zip(params[len(params) - len(st.args.defaults):], st.args.defaults)) if st.args.defaults else {}
